@@ -365,6 +365,9 @@ def write_evidence(prop, tier, level, coverage, wall, violations, assumptions):
     os.replace(tmp, os.path.join(EVID, prop + ".json"))
 
 
+MONITOR_OF = {"C17": "KVMonitor", "C18": "CryptoMonitor", "C20": "CreateMonitor"}
+
+
 def finish(prop, tier, workdir, scen_by_id, trace_events, violations, level, coverage, t0, assumptions, extra_known_features=None):
     """Classify violations (known finding vs new), write replay files, evidence, print lines, return exit code."""
     kfs = load_known()
@@ -394,7 +397,10 @@ def finish(prop, tier, workdir, scen_by_id, trace_events, violations, level, cov
             continue
         seen.add(v["sc"])
         path = os.path.join(rdir, re.sub(r"[^A-Za-z0-9_.-]", "_", str(v["sc"])) + ".json")
+        sc0 = scen_by_id.get(v["sc"]) or {}
         json.dump({"property": prop, "violation": v, "scenario": scen_by_id.get(v["sc"]),
+                   "monitor": MONITOR_OF.get(prop, "Monitor"), "race": prop == "C19",
+                   "colseq": (sc0.get("cfg") or {}).get("cols", ["a", "b"]),
                    "events": by_sc.get(v["sc"], [])[:400]}, open(path, "w"), indent=1)
         lines.append("VIOLATION property=%s replay=%s" % (prop, path))
     for kid, vs in sorted(known.items()):
